@@ -163,15 +163,29 @@ def run(ctx):
     if not all_ok:
         ok_e = set()
     oks = ok_assign_blocks(b, 'Ok')
-    latch, lwhy = sticky_flag(fl, f_e, oks) if f_e and oks else (None, 'no not-committed edge / Ok return found')
-    if latch is None and f_e and oks:
-        ok_c, why_c = counted_event(fl, f_e, oks)
-        if ok_c:
-            latch, lwhy = 'count', why_c
-        else:
-            lwhy = '%s; %s' % (lwhy, why_c)
+    # every way a Put can end without the file being the hub's version of the path (a lost CAS, a refusal the client carries on
+    # after) must, on its own, keep the run from exiting 0: judged per outcome - a counter that is kept but never tested does not count
+    per_name = {}
+    for pb_, _ in puts:
+        oc = fl.outcomes(pb_)
+        for nme in lost_names:
+            if oc.get(nme):
+                per_name.setdefault(nme, set()).update(oc[nme])
+    latch, lwhy = (None, 'no not-committed edge / Ok return found')
+    for nme, edges_ in sorted(per_name.items()) if (f_e and oks) else []:
+        l1, w1 = sticky_flag(fl, edges_, oks)
+        if l1 is None:
+            ok_c, why_c = counted_event(fl, edges_, oks)
+            if ok_c:
+                l1, w1 = 'count', why_c
+            else:
+                w1 = '%s; %s' % (w1, why_c)
+        if l1 is None:
+            latch, lwhy = None, 'outcome %s: %s' % (nme, w1)
+            break
+        latch, lwhy = l1, w1
     ctx.check(latch is not None, 'C13.R3', 'hub_sync:conflicts->Err', 'the not-committed edge latches a variable; Ok is returned only while it is untouched',
-              'a lost CAS does not make hub_sync fail (%s)' % lwhy, term_loc(b, pb))
+              'a Put that did not commit (a lost CAS, a refusal the client carries on after) does not make hub_sync fail (%s)' % lwhy, term_loc(b, pb))
     # a lost (or won) CAS does not end the push: the loop goes on to the next local file
     stops = None
     reply_edges = (f_e | t_e) or ok_e      # the reply is in hand: after it, only the next entry or an I/O error
@@ -275,6 +289,18 @@ def put_reply_meaning(F, p):
                             lost.add(str(o.key).split('::')[-1])
                         elif c_true and cfg.edges_guard(c_true, o.bb):
                             won.add(str(o.key).split('::')[-1])
+    # any further value put() can return as Ok (a refusal turned into an outcome instead of an Err) is, like a lost CAS, a file
+    # that is not the hub's version of the path
+    if won:
+        for ob in ok_assign_blocks(p, 'Ok'):
+            for st in p.blocks[ob]['stmts']:
+                rv = st['rv']
+                if rv['k'] == 'agg' and rv.get('vname') == 'Ok' and rv['ops']:
+                    for o in pfl.origins(rv['ops'][0]):
+                        if o.kind == 'agg' and '::' in str(o.key) and not str(o.key).startswith('std::'):
+                            nme = str(o.key).split('::')[-1]
+                            if nme not in won:
+                                lost.add(nme)
     if not lost and not won:
         lost, won = {'false'}, {'true'}
     return lost, won
